@@ -6,5 +6,5 @@ cd $W && CARGO_TARGET_DIR=/tmp/rtest-target-$$ cargo build --offline -q 2>&1 | t
 cp /tmp/rtest-target-$$/debug/libobjects_py.so dulwich/_objects.cpython-312-x86_64-linux-gnu.so
 cp /tmp/rtest-target-$$/debug/libpack_py.so dulwich/_pack.cpython-312-x86_64-linux-gnu.so
 cp /tmp/rtest-target-$$/debug/libdiff_tree_py.so dulwich/_diff_tree.cpython-312-x86_64-linux-gnu.so
-timeout 1800 /venv/bin/python -m pytest -q -p no:cacheprovider --timeout=900 -n 6 tests contrib 2>&1 | tail -8
+timeout 2400 /venv/bin/python -m pytest -ra -q -p no:cacheprovider --timeout=900 --continue-on-collection-errors 2>&1 | tail -15
 cd /; git -C /repo worktree remove --force $W; rm -rf /tmp/rtest-target-$$
